@@ -722,4 +722,180 @@ theorem default_page_misses_the_eleventh :
     ((collectFees st12 1002 (.poolFactory (some 99))).toOption.map fun s => s.pools.map (·.pa)) =
       some [0, 0, 0, 0, 0, 0, 0, 0, 0, 0, 0, 0] := by decide
 
+/-! ### the pipeline from inside a flash-loan callback (`Feeflow.Op.inloan`)
+
+  `NewEpoch`, `CollectFees` and `AggregateFees` are permissionless: the borrower of a flash loan on a registered vault can
+  send them from its callback, while the vault's loan counter is 1 and its balance is down by the loan.  The model
+  (`WW/Model/Feeflow.lean`, header) is the real vault's behaviour: `collect_protocol_fees` ignores the loan counter and
+  pays the pending fees out of the loan-reduced balance, `after_trade` requires the balance before the loan plus the
+  three fees.  The theorems hold for all loan amounts, vault balances, fee shares, states and nested operations. -/
+
+/-- **inloan_collects_as_outside_the_loan** — a completed transaction `FlashLoan` → the callback sends `inner` →
+    repayment leaves EXACTLY the joint state that `inner` alone would have left from the same state — distributor,
+    epochs, collector balances, DAO, take-rate history, pairs, routes, bonders: a pipeline run (or a direct collection /
+    aggregation) nested in a loan collects, swaps, takes and forwards what the same run does outside the loan — and the
+    only difference is the loan's own protocol fee `⌊amount · share⌋`, booked on the lending vault's pending ledger
+    AFTER the nested operation -/
+theorem inloan_collects_as_outside_the_loan (cfg : Feeflow.Cfg) (s s' : Feeflow.St) (k amount vbal : Nat)
+    (mode : Feeflow.Repay) (fees : Feeflow.LoanFees) (inner : Feeflow.Op)
+    (h : Feeflow.step cfg s (.inloan k amount mode vbal fees inner) = .ok s') :
+    ∃ s1, Feeflow.step cfg s inner = .ok s1 ∧
+      s'.d = s1.d ∧ s'.c.bal = s1.c.bal ∧ s'.c.dao = s1.c.dao ∧ s'.c.trh = s1.c.trh ∧ s'.c.pools = s1.c.pools ∧
+      s'.c.rate = s1.c.rate ∧ s'.c.active = s1.c.active ∧ s'.c.daoSet = s1.c.daoSet ∧ s'.c.routes = s1.c.routes ∧
+      s'.daoBal = s1.daoBal ∧ s'.ub = s1.ub ∧ s'.view = s1.view ∧ s'.rts = s1.rts ∧ s'.xb = s1.xb ∧
+      (∀ j, Feeflow.pendOf s' j =
+        if j = k ∧ (s1.c.vaults[j]?).isSome = true then Feeflow.pendOf s1 j + Feeflow.loanFee fees.prot amount
+        else Feeflow.pendOf s1 j) := by
+  obtain ⟨s1, o, hi, _, hs', _⟩ := Feeflow.inloan_ok h
+  refine ⟨s1, hi, ?_⟩
+  subst hs'
+  exact ⟨rfl, rfl, rfl, rfl, rfl, rfl, rfl, rfl, rfl, rfl, rfl, rfl, rfl, rfl,
+    fun j => Feeflow.pendOf_accrueLoan k _ s1 j⟩
+
+/-- **inloan_vault_ends_with_fees** — the bank side of a completed loan, for every nested operation `inner` (any function
+    of the joint state), every amount, balance and fee share: the borrower did NOT repay short; the lending vault ends
+    with its balance before the loan + protocol fee + flash-loan fee (+ what a generous borrower paid on top; the burn
+    fee is burnt) although it paid `paidOut` — the pending fees that the nested operation collected — to the collector
+    in mid-loan: the borrower made up for them, it sent `amount + protocol + flash + burn + paidOut (+ extra)`; and the
+    loan-reduced balance covered what was paid out -/
+theorem inloan_vault_ends_with_fees (s : Feeflow.St) (k amount vbal : Nat) (mode : Feeflow.Repay)
+    (fees : Feeflow.LoanFees) (inner : Feeflow.St → Res Feeflow.St) (o : Feeflow.LoanOut)
+    (h : Feeflow.inloanRun s k amount mode vbal fees inner = .ok o) :
+    mode ≠ .short ∧ o.paidOut ≤ vbal - amount ∧ amount ≤ vbal ∧
+    ∃ extra, (mode = .exact → extra = 0) ∧ (∀ x, mode = .over x → extra = x) ∧
+      o.endBal = vbal + Feeflow.loanFee fees.prot amount + Feeflow.loanFee fees.flash amount + extra ∧
+      o.repaid = amount + Feeflow.loanFee fees.prot amount + Feeflow.loanFee fees.flash amount +
+        Feeflow.loanFee fees.burn amount + o.paidOut + extra := by
+  obtain ⟨s1, _, hc, _, ha, hle⟩ := Feeflow.inloanRun_ok h
+  obtain ⟨h1, _, h3, _, he, hr, hp⟩ := Feeflow.loanClose_ok hc
+  rw [he, hr, hp]
+  unfold Feeflow.loanRepaid Feeflow.loanMid Feeflow.loanRequired at *
+  obtain ⟨hm, extra, e0, ex, hb, hrep⟩ := Feeflow.repay_arith h1 ha hle h3
+  exact ⟨hm, h1, hle, extra, e0, ex, hb, hrep⟩
+
+/-- **inloan_short_repayment_leaves_no_trace** — a borrower that repays one unit less than `after_trade` requires never
+    completes the transaction, whatever it nested into the loan (a whole pipeline run included) and whatever the vault
+    paid out in mid-loan: the operation fails, and a failed operation leaves the joint state untouched (the history
+    skips it) -/
+theorem inloan_short_repayment_leaves_no_trace (cfg : Feeflow.Cfg) (s : Feeflow.St) (k amount vbal : Nat)
+    (fees : Feeflow.LoanFees) (inner : Feeflow.Op) :
+    (∀ s', Feeflow.step cfg s (.inloan k amount .short vbal fees inner) ≠ .ok s') ∧
+    Feeflow.reach cfg s [.inloan k amount .short vbal fees inner] = s := by
+  have hne : ∀ s', Feeflow.step cfg s (.inloan k amount .short vbal fees inner) ≠ .ok s' := by
+    intro s' h
+    simp only [Feeflow.step] at h
+    cases hr : Feeflow.inloanRun s k amount .short vbal fees (fun s0 => Feeflow.step cfg s0 inner) with
+    | err => rw [hr] at h; cases h
+    | panic => rw [hr] at h; cases h
+    | ok o => exact (inloan_vault_ends_with_fees s k amount vbal .short fees _ o hr).1 rfl
+  refine ⟨hne, ?_⟩
+  cases hs : Feeflow.step cfg s (.inloan k amount .short vbal fees inner) with
+  | ok s' => exact absurd hs (hne s')
+  | err => simp only [Feeflow.reach, hs]
+  | panic => simp only [Feeflow.reach, hs]
+
+/-- **inloan_fees_must_be_covered** — `collect_protocol_fees` does not look at the loan counter: the pending fees that the
+    nested operation takes off the lending vault's ledger are a bank send out of the LOAN-REDUCED balance; when that
+    balance does not cover them the whole transaction fails (nothing is zeroed without being transferred) -/
+theorem inloan_fees_must_be_covered (cfg : Feeflow.Cfg) (s s1 : Feeflow.St) (k amount vbal : Nat) (mode : Feeflow.Repay)
+    (fees : Feeflow.LoanFees) (inner : Feeflow.Op) (hi : Feeflow.step cfg s inner = .ok s1)
+    (hlt : vbal - amount < Feeflow.pendOf s k - Feeflow.pendOf s1 k) :
+    ∀ s', Feeflow.step cfg s (.inloan k amount mode vbal fees inner) ≠ .ok s' := by
+  intro s' h
+  obtain ⟨s1', o, hi', hc, _⟩ := Feeflow.inloan_ok h
+  rw [hi] at hi'
+  injection hi' with hi'; subst hi'
+  obtain ⟨h1, _⟩ := Feeflow.loanClose_ok hc
+  unfold Feeflow.loanPaidOut at h1
+  omega
+
+/-- **newepoch_in_loan_is_the_plain_pipeline** — `NewEpoch` sent from inside the callback of a flash loan on vault `k`
+    (at most 30 vaults: one factory page), completed: the epoch, the distributor's balances, the DAO's cut, the
+    collector's balances and the pairs' ledgers are those of the SAME `NewEpoch` sent outside any loan (`epoch_total_eq`,
+    `pipeline_conservation`, `take_exact` apply to it verbatim); every vault's pending fees — the LENDING vault's
+    included, although its loan is still in flight — were collected in full, so after the transaction every other vault
+    has nothing pending and the lending vault exactly the fee of the loan in flight; the vault paid its whole pending
+    ledger out in mid-loan (the loan-reduced balance covered it) and ends with balance before + protocol fee +
+    flash-loan fee (+ extra), the borrower having sent loan + fees + the collected amount (+ extra) -/
+theorem newepoch_in_loan_is_the_plain_pipeline (cfg : Feeflow.Cfg) (s : Feeflow.St) (k amount vbal now : Nat)
+    (mode : Feeflow.Repay) (fees : Feeflow.LoanFees) (router : Nat → Nat → Nat → Nat) (acc : Nat → Nat → Nat)
+    (o : Feeflow.LoanOut) (hv : s.c.vaults.length ≤ 30)
+    (h : Feeflow.inloanRun s k amount mode vbal fees (fun s0 => Feeflow.step cfg s0 (.newEpoch now router acc)) = .ok o) :
+    ∃ s1 out, Feeflow.newEpoch cfg s now router acc = .ok (s1, out) ∧
+      o.st.d = s1.d ∧ o.st.c.bal = s1.c.bal ∧ o.st.daoBal = s1.daoBal ∧ o.st.c.pools = s1.c.pools ∧
+      o.st.c.trh = s1.c.trh ∧ o.st.ub = s1.ub ∧
+      (∀ j, Feeflow.pendOf s1 j = 0) ∧
+      (∀ j, j ≠ k → Feeflow.pendOf o.st j = 0) ∧
+      Feeflow.pendOf o.st k = Feeflow.loanFee fees.prot amount ∧
+      o.paidOut = Feeflow.pendOf s k ∧ Feeflow.pendOf s k ≤ vbal - amount ∧
+      ∃ extra, o.endBal = vbal + Feeflow.loanFee fees.prot amount + Feeflow.loanFee fees.flash amount + extra ∧
+        o.repaid = amount + Feeflow.loanFee fees.prot amount + Feeflow.loanFee fees.flash amount +
+          Feeflow.loanFee fees.burn amount + Feeflow.pendOf s k + extra := by
+  obtain ⟨_, hcov, _, extra, _, _, hend, hrep⟩ := inloan_vault_ends_with_fees s k amount vbal mode fees _ o h
+  obtain ⟨s1, hi, hc, hk, _, _⟩ := Feeflow.inloanRun_ok h
+  obtain ⟨_, _, _, hst, _, _, hp⟩ := Feeflow.loanClose_ok hc
+  simp only [Feeflow.step] at hi
+  cases hn : Feeflow.newEpoch cfg s now router acc with
+  | err => rw [hn] at hi; cases hi
+  | panic => rw [hn] at hi; cases hi
+  | ok pr =>
+    obtain ⟨s1', out⟩ := pr
+    rw [hn] at hi; simp only at hi
+    injection hi with hi; subst hi
+    obtain ⟨_, _, _, _, _, _, _, _, hc', _, hf⟩ := epoch_total_eq cfg s s1' now router acc out hn
+    have hvs : s1'.c.vaults = s.c.vaults.map (fun v => { v with pend := 0 }) := by
+      rw [hc', (pending_after _ _ _ _ _ _ out hf).1]
+      exact vaultsAfter_all _ (vaultListed_of_length_le (n := vaultPage FWD_LIMIT)
+        (by rw [page_limits_documented.2.2.1]; exact hv))
+    have hz : ∀ j, Feeflow.pendOf s1' j = 0 := by
+      intro j
+      unfold Feeflow.pendOf
+      rw [hvs, List.getElem?_map]
+      cases s.c.vaults[j]? with
+      | none => rfl
+      | some v => rfl
+    have hsome : (s1'.c.vaults[k]?).isSome = true := by
+      rw [hvs, List.getElem?_map]
+      cases hq : s.c.vaults[k]? with
+      | none => rw [hq] at hk; cases hk
+      | some v => rfl
+    have hpo : o.paidOut = Feeflow.pendOf s k := by
+      rw [hp]; unfold Feeflow.loanPaidOut; rw [hz k]; rfl
+    refine ⟨s1', out, rfl, ?_, ?_, ?_, ?_, ?_, ?_, hz, fun j hj => ?_, ?_, hpo, ?_, extra, hend, ?_⟩
+    · rw [hst]; rfl
+    · rw [hst]; rfl
+    · rw [hst]; rfl
+    · rw [hst]; rfl
+    · rw [hst]; rfl
+    · rw [hst]; rfl
+    · rw [hst, Feeflow.pendOf_accrueLoan, if_neg (fun hh => hj hh.1)]; exact hz j
+    · rw [hst, Feeflow.pendOf_accrueLoan, if_pos ⟨rfl, hsome⟩, hz k]; omega
+    · rw [← hpo]; exact hcov
+    · rw [hrep, hpo]
+
+/-- the model on concrete numbers (`jst`: the uwhale vault 0 has 7 pending, the uusdc vault 1 has 2500; both charge 1 %
+    protocol and 0.1 % flash-loan fee).  A loan of 400 000 on vault 1 (balance 1 000 000) whose borrower sends
+    `CollectFees` for the vault factory: the collector receives the 7 + 2500 as outside a loan, vault 1 ends with
+    1 000 000 + 4000 + 400 = 1 004 400 and 4000 pending, the borrower sent 400 000 + 4400 + 2500 = 406 900; one unit
+    short and nothing happens; a loan that leaves less than the 2500 in the vault cannot be completed -/
+def f1 : Feeflow.LoanFees := { prot := 10000000000000000, flash := 1000000000000000, burn := 0 }
+example : ((Feeflow.inloanRun jst 1 400000 .exact 1000000 f1 (fun s0 => Feeflow.step jcfg s0 (.collect 1003 (.vaultFactory (some 30))))).toOption.map
+    fun o => (o.st.c.bal 1, o.st.c.bal 2, o.st.c.vaults.map (·.pend), o.endBal, o.repaid, o.paidOut)) =
+    some (2500, 47, [0, 4000], 1004400, 406900, 2500) := by decide
+example : (Feeflow.step jcfg jst (.inloan 1 400000 .short 1000000 f1 (.collect 1003 (.vaultFactory (some 30))))).isOk = false ∧
+    (Feeflow.step jcfg jst (.inloan 1 997501 .exact 1000000 f1 (.collect 1003 (.vaultFactory (some 30))))).isOk = false ∧
+    (Feeflow.step jcfg jst (.inloan 1 997500 .exact 1000000 f1 (.collect 1003 (.vaultFactory (some 30))))).isOk = true ∧
+    (Feeflow.step jcfg jst (.inloan 1 997501 .exact 1000000 f1 (.aggregate 1003 (.vaultFactory (some 30)) r0 a0))).isOk = true := by decide
+/-- `NewEpoch` (now = 1000 = genesis) from inside a loan of 5000 on the uwhale vault 0 (balance 90 000), repaid with 11 on
+    top: the distributor / DAO / collector balances and the epoch are those of the plain `NewEpoch` (`out0`: 3104 / 344),
+    vault 0 has only the loan's fee pending, vault 1 nothing, vault 0 ends with 90 000 + 50 + 5 + 11 -/
+def jstR : Feeflow.St := { jst with rts := fun ask offer => if ask = 2 ∧ offer = 1 then [(1, 2)] else [] }
+def loanOut0 : Option Feeflow.LoanOut :=
+  (Feeflow.inloanRun jstR 0 5000 (.over 11) 90000 f1
+    (fun s0 => Feeflow.step jcfg s0 (.newEpoch 1000 (fun _ _ _ => 2400) (fun _ _ => 0)))).toOption
+example : (loanOut0.map fun o => (o.st.d.bal 2, o.st.daoBal 2, o.st.c.bal 2)) = some (3104, 344, 0) := by decide
+example : (loanOut0.map fun o => o.st.d.epochs.map (·.total)) = some [[(2, 3104)]] := by decide
+example : (loanOut0.map fun o => (o.st.c.vaults.map (·.pend), o.endBal, o.repaid, o.paidOut)) =
+    some ([50, 0], 90066, 5073, 7) := by decide
+
 end WW.C10
